@@ -30,7 +30,9 @@ def templates(cfg):
         for tp in mod.templates(cfg):
             allt.append(dataclasses.replace(tp, name="c01~" + tp.name, props=("C01",), mode="cross", prog2=None))
     if cfg.tier != "quick":
-        return allt
+        core = [t for t in allt if t.name[4:].startswith(CORE_PREFIXES)]
+        rest = [t for t in allt if t not in core]
+        return core + rotated(rest, 1500, cfg.seed)
     core = [t for t in allt if t.name[4:].startswith(CORE_PREFIXES)]
     rest = [t for t in allt if t not in core]
     return core[:120] + rotated(rest, 140, cfg.seed)
